@@ -316,7 +316,9 @@ def parseSrcEnv (comp : Str → Option (List Instr)) : List String → Option (E
     | [] => none
   | [] => none
 
-def showLog (l : Log) : String :=
+def showLog (l0 : Log) : String :=
+  -- the reserved marker (compile mode only) is not a call; a run-time log never holds one
+  let l := l0.filter (fun e => !e.isMarker)
   String.intercalate " " (s!"L:{l.length}" :: l.map fun e =>
     s!"{hexOfStr e.name} {showVal e.this} {showVal (.list e.args)}")
 
